@@ -111,9 +111,9 @@ def run(tier):
                 ("G(4) x U, P in {5,7}, bound 2", [["--n", 4, "--alpha", "U", "--P", "5,7", "--bound", 2]], 200),
                 ("G(5) x U, P in {2,3,4,5}, bound 1", [["--n", 5, "--alpha", "U", "--P", "2,3,4,5", "--bound", 1]], 400),
                 ("G(5) x A2, dim>=2, P in {2,3}, bound 1, at most one non-default reduce outcome", [["--n", 5, "--alpha", "A2", "--P", "2,3", "--bound", 1, "--min-dim", 2, "--outcome-bound", 1]], 900),
-                ("K6, wheel:5, prism:3, K3,3 unit, P in {2,3,5,7}, bound 1, at most one non-default reduce outcome; K7 unit, P in {2,3,5,7}, default schedule",
-                 [["--families", "K:6,wheel:5,prism:3,Kb:3:3", "--alpha", "U", "--P", "2,3,5,7", "--bound", 1, "--outcome-bound", 1],
-                  ["--families", "K:7", "--alpha", "U", "--P", "2,3,5,7", "--bound", 0, "--outcome-bound", 0]], 400),
+                ("K6, wheel:5, prism:3, K3,3 unit, P in {2,3,5}, bound 1, at most one non-default reduce outcome; K6, K7 unit, P in {2,3,5,7}, default schedule",
+                 [["--families", "K:6,wheel:5,prism:3,Kb:3:3", "--alpha", "U", "--P", "2,3,5", "--bound", 1, "--outcome-bound", 1],
+                  ["--families", "K:6,K:7", "--alpha", "U", "--P", "2,3,5,7", "--bound", 0, "--outcome-bound", 0]], 1200),
                 ("K6 x A2, all entry points, P in {4,5}, default schedule, default reduce outcome",
                  [["--families", "K:6", "--alpha", "A2", "--P", "4,5", "--bound", 0, "--wchunks", 64, "--outcome-bound", 0]], 500),
                 ("G(6) x A2, dim >= 8, mcb_sva_signed_mpi, P in {3,4,5}, default outcome", [["--n", 6, "--alpha", "A2", "--min-dim", 8, "--P", "3,4,5", "--variants", "signed_mpi", "--bound", 0, "--wchunks", 16, "--outcome-bound", 0]], 600)]
